@@ -16,7 +16,7 @@ def _lowrank(npr, shape, dtype, rank):
     return (a @ b).astype(dtype)
 
 
-def rand_matrix(ctx, rng, sym=None, fermionic=None, kind=None, dtype=None, square=False, uniform=False, min_charges=1, nphase=None, sparsity=None):
+def rand_matrix(ctx, rng, sym=None, fermionic=None, kind=None, dtype=None, square=False, uniform=False, min_charges=1, nphase=None, sparsity=None, max_charges=3):
     """-> (x, features:set). kind in direct|fused|deficient."""
     sr = ctx.sr
     sym = sym or rng.choice(gen.SYMS5)
@@ -51,8 +51,8 @@ def rand_matrix(ctx, rng, sym=None, fermionic=None, kind=None, dtype=None, squar
             cs2 = rng.sample(pool, rng.randint(min(min_charges, len(pool)), min(3, len(pool))))
             c = sr.BlockIndex({c_: d for c_ in cs2}, dual=rng.random() < 0.5)
         else:
-            r = gen.rand_index(sr, rng, sym, maxc=3, maxd=maxd, p_single=0.03, minc=min_charges)
-            c = gen.rand_index(sr, rng, sym, maxc=3, maxd=maxd, p_single=0.03, minc=min_charges)
+            r = gen.rand_index(sr, rng, sym, maxc=max_charges, maxd=maxd, p_single=0.03, minc=min_charges)
+            c = gen.rand_index(sr, rng, sym, maxc=max_charges, maxd=maxd, p_single=0.03, minc=min_charges)
         if square:
             c = gen.conj_index(sr, r)
             charge = R.identity(sym)
@@ -91,6 +91,12 @@ def hermitian_matrix(ctx, rng, sym=None, fermionic=None, dtype=None):
     x, feats = rand_matrix(ctx, rng, sym, fermionic, kind="direct", dtype=dtype, square=True, nphase=0)
     for s, b in list(x.blocks.items()):
         x.blocks[s] = (b + b.conj().T) / 2
+    if np.iscomplexobj(next(iter(x.blocks.values()))) and len(x.blocks) >= 2 and rng.random() < 0.3:
+        # blocks of mixed dtype (as produced by real + complex): some blocks real symmetric
+        keys = list(x.blocks)
+        for s in keys[: rng.randint(1, len(keys) - 1)]:
+            x.blocks[s] = np.ascontiguousarray(x.blocks[s].real)
+        feats.add("mixed-dtype-blocks")
     if getattr(x, "fermionic", False) and rng.random() < 0.5:
         x.phase_transpose((1, 0), inplace=True)  # pending signs on odd-odd blocks, still hermitian
         if any(v == -1 for v in x.phases.values()):
